@@ -101,6 +101,20 @@ func (f failingWritable) Writable() (backend.WritableFile, error) {
 	return nil, errors.New("verif: this backend refuses Writable()")
 }
 
+// sealable is a backend whose Writable() succeeds until it is sealed (a write-protect switch, a lease that
+// ended): from then on it is a backend whose Writable() fails, for objects made before as for new ones.
+type sealable struct {
+	backend.Storage
+	sealed *bool
+}
+
+func (f sealable) Writable() (backend.WritableFile, error) {
+	if *f.sealed {
+		return nil, errors.New("verif: this backend has been sealed and refuses Writable()")
+	}
+	return f.Storage.Writable()
+}
+
 const c11Part = 1 << 20 // partition start for the table images
 
 // c11Build writes the image into st and returns (fs range start, fs range size, has table).
@@ -231,6 +245,7 @@ func c11Run(c core.Case, env *core.Env) core.Result {
 	var b backend.Storage
 	realPath := ""
 	readOnlyRoute := true
+	sealed := false
 	switch p.Route {
 	case "store-ro":
 		st = monstore.FromBytes(img)
@@ -240,6 +255,9 @@ func c11Run(c core.Case, env *core.Env) core.Result {
 		st = monstore.FromBytes(img)
 		st.SetReadOnlySentinel(true)
 		b = failingWritable{file.New(st, false)}
+	case "sealed-after-open":
+		st = monstore.FromBytes(img)
+		b = sealable{file.New(st, false), &sealed}
 	case "ro-view-of-rw-backend":
 		// a read-only view layered over a backend that is itself writable (e.g. the Backend of a disk opened read-write)
 		st = monstore.FromBytes(img)
@@ -335,6 +353,12 @@ func c11Run(c core.Case, env *core.Env) core.Result {
 			fail("open-wrote", p.Route+"/"+p.Damage, "opening the disk and asking for its filesystem - purely reading calls - issued %d write(s) to the device (%s, damage %q)", n, p.Route, p.Damage)
 			return res
 		}
+	}
+	if p.Route == "sealed-after-open" {
+		// the disk and its filesystem object exist; now the backend stops handing out its writable side
+		sealed = true
+		st.SetReadOnlySentinel(true)
+		res.Mark("backend sealed after the filesystem object was made")
 	}
 	if after := hashNow(); after != before {
 		fail("image-changed", p.Route+"/open", "the image's hash changed from %s to %s while it was only opened (%s, damage %q)", before, after, p.Route, p.Damage)
@@ -572,10 +596,10 @@ func init() {
 	core.Register(&core.Check{
 		ID:          "C11",
 		Level:       "exploration",
-		Rule:        "prebuilt images {fat12, fat16, fat32, ext4, iso9660 (Rock Ridge), squashfs, GPT disk with FAT32 partition, MBR disk with FAT16 partition, and disks or partitions nobody has written to yet (512- and 4096-byte sectors, so that every filesystem type can be asked for)} are opened read-only through six routes (file.New(store, readOnly=true) over an instrumented store with a write sentinel, a backend whose Writable() fails, file.New(file.New(store, false), true) - a read-only view over a writable backend -, diskfs.Open(path, ReadOnly), file.OpenFromPath(path, true), file.New(os file opened O_RDWR, readOnly=true)) and, for clause (c) and finalized images, through a writable backend with a write log; seeded interleavings of mutating entry points (Partition, WritePartitionContents, CreateFilesystem, Mkdir, OpenFile with every write flag, Write through a handle, Rename, Remove, SetLabel, Chmod, Chown, Chtimes, Symlink, Finalize) and reading entry points are driven: every mutator must return an error and cause zero write events, reading calls must cause zero write events, and the image hash - taken before the library first touches the image, so that opening itself is covered - must be unchanged; the same is driven on images with a stale or inconsistent spot a reader might be tempted to repair (image file cut short in the middle of the partition; GPT primary header / primary entries / backup header failing their CRC, FSInfo free count stale, FAT copies differing, FAT dirty flag, ext4 not cleanly unmounted / error flag / mount count at its maximum): refusing such an image is an observation, writing to it is a violation; non-trivial = an interleaving with at least one rejected mutator or checked reading call; distinct = distinct (image, route, seed)",
+		Rule:        "prebuilt images {fat12, fat16, fat32, ext4, iso9660 (Rock Ridge), squashfs, GPT disk with FAT32 partition, MBR disk with FAT16 partition, and disks or partitions nobody has written to yet (512- and 4096-byte sectors, so that every filesystem type can be asked for)} are opened read-only through six routes (file.New(store, readOnly=true) over an instrumented store with a write sentinel, a backend whose Writable() fails, file.New(file.New(store, false), true) - a read-only view over a writable backend -, diskfs.Open(path, ReadOnly), file.OpenFromPath(path, true), file.New(os file opened O_RDWR, readOnly=true)) and, for clause (c) and finalized images, through a writable backend with a write log; seeded interleavings of mutating entry points (Partition, WritePartitionContents, CreateFilesystem, Mkdir, OpenFile with every write flag, Write through a handle, Rename, Remove, SetLabel, Chmod, Chown, Chtimes, Symlink, Finalize) and reading entry points are driven: every mutator must return an error and cause zero write events, reading calls must cause zero write events, and the image hash - taken before the library first touches the image, so that opening itself is covered - must be unchanged; the same is driven on images with a stale or inconsistent spot a reader might be tempted to repair (image file cut short in the middle of the partition; GPT primary header / primary entries / backup header failing their CRC, FSInfo free count stale, FAT copies differing, FAT dirty flag, ext4 not cleanly unmounted / error flag / mount count at its maximum): refusing such an image is an observation, writing to it is a violation; route sealed-after-open: a backend whose Writable() succeeds while the disk and filesystem objects are made and fails from then on; non-trivial = an interleaving with at least one rejected mutator or checked reading call; distinct = distinct (image, route, seed)",
 		Assumptions: []string{"for the two real-path routes the observation is the SHA-256 of the file before/after (no per-call write log)"},
 		MinSigs:     map[string]int{"quick": 40, "thorough": 1000},
-		NeedMarks:   []string{"damage gpt-primary-header", "damage gpt-backup-header", "damage fsinfo-stale", "damage fat-copies-differ", "damage ext4-not-clean", "route store-ro", "route ro-view-of-rw-backend", "route osfile-rdwr-ro", "damage image-cut-short", "route writable-fails", "route diskfs-open-ro", "route openfrompath-ro", "route writable-reads", "route finalized-writable", "image blank4k", "image gpt+blank4k"},
+		NeedMarks:   []string{"backend sealed after the filesystem object was made", "damage gpt-primary-header", "damage gpt-backup-header", "damage fsinfo-stale", "damage fat-copies-differ", "damage ext4-not-clean", "route store-ro", "route ro-view-of-rw-backend", "route osfile-rdwr-ro", "damage image-cut-short", "route writable-fails", "route diskfs-open-ro", "route openfrompath-ro", "route writable-reads", "route finalized-writable", "image blank4k", "image gpt+blank4k"},
 		CPUSec:      300,
 		Cases: func(seed int64, tier string) []core.Case {
 			r := gen.New(seed ^ 0xC11)
@@ -594,6 +618,7 @@ func init() {
 					for _, rt := range []string{"store-ro", "writable-fails", "ro-view-of-rw-backend", "diskfs-open-ro", "openfrompath-ro", "osfile-rdwr-ro", "writable-reads"} {
 						cs = append(cs, core.MkCase(fmt.Sprintf("%s-%s-%d", im, rt, rep), "readonly-"+im, r.Int63(), c11Case{Image: im, Route: rt, Calls: calls}))
 					}
+					cs = append(cs, core.MkCase(fmt.Sprintf("%s-sealed-%d", im, rep), "readonly-"+im, r.Int63(), c11Case{Image: im, Route: "sealed-after-open", Calls: calls}))
 					for _, dm := range c11Damages[im] {
 						for _, rt := range []string{"store-ro", "writable-reads", "diskfs-open-ro", "osfile-rdwr-ro"} {
 							cs = append(cs, core.MkCase(fmt.Sprintf("%s-%s-%s-%d", im, dm, rt, rep), "readonly-"+im, r.Int63(), c11Case{Image: im, Route: rt, Calls: calls, Damage: dm}))
